@@ -270,7 +270,13 @@ def two_site_cases(log, tag, d):
         out.append({"req": f"lomerge {tensor_req(m[1])} {tensor_req(m[2])}", "impl": tensor_impl(m[3]), "oracle": None,
                     "kind": "localop-merge", "sig": f"merge:{tag}:{m[1].shape}:{m[2].shape}", "nontrivial": True})
     for m, c, s in zip(merges, contr, splits):
-        out.append({"req": f"lo2 {mat_req(c[2][0])} {tensor_req(m[1])} {tensor_req(m[2])}", "impl": tensor_impl(s[1]),
+        handed = s[1]
+        if tag == "sj":
+            # since fix 5dee091 apply_scheduled_jumps divides the block by its Frobenius norm before the split (the state is
+            # renormalised afterwards anyway); the model's block is the unscaled one, so the captured tensor is scaled back by the
+            # norm of (operator . merged) computed from the captured arguments
+            handed = handed * float(np.linalg.norm(np.einsum("ab,bcd->acd", c[2][0], m[3])))
+        out.append({"req": f"lo2 {mat_req(c[2][0])} {tensor_req(m[1])} {tensor_req(m[2])}", "impl": tensor_impl(handed),
                     "oracle": None, "kind": "localop-lo2", "sig": f"lo2:{tag}:{m[1].shape}:{m[2].shape}", "nontrivial": True})
     for s, v in zip(splits, svds):
         out.append({"req": f"lotheta {s[3][0]} {s[3][1]} {tensor_req(s[1])}", "impl": mat_impl(v[1]), "oracle": None,
@@ -348,7 +354,13 @@ def _run_sj(rng, tensors, before, L, d, label, two):
                           "kind": "localop-vec1", "sig": f"vec1:{L}:{d}:{site}", "nontrivial": True})
         # model-independent: before the normalisation the vector is exactly embed(X).before (no phase, no scale)
         pre_norm = dense_big_endian(norm_ev[0][4], d)
-        p2, dev2 = compare_dense(pre_norm, ref, False, label + " (before normalize)")
+        if two:
+            # a two-site jump rescales its block by a positive number before the split (fix 5dee091): same direction, no phase
+            nr, npn = float(np.linalg.norm(ref)), float(np.linalg.norm(pre_norm))
+            dev2 = float(np.linalg.norm(pre_norm / max(npn, 1e-300) - ref / max(nr, 1e-300)))
+            p2 = [] if dev2 <= TOL else [f"{label} (before normalize): direction of the vector differs from (embedded operator).(vector before) by {dev2:.3e}"]
+        else:
+            p2, dev2 = compare_dense(pre_norm, ref, False, label + " (before normalize)")
         cases.append({"req": None, "impl": None, "kind": "localop-prenorm", "sig": f"prenorm:{int(two)}:{L}:{d}:{site}",
                       "nontrivial": True, "meta": {"dev": dev2},
                       "oracle": {"ok": not p2, "detail": "; ".join(p2) or f"before normalize: dev {dev2:.1e} [{label}]"}})
